@@ -1,23 +1,23 @@
 CONSTANTS
-  Servers <- S1
-  Idents <- Id1x
+  Servers <- S2
+  Idents <- Id2x
   Home <- HomeAll
   Flows <- F1
   FlowDef <- FD
-  CPorts <- P12
+  CPorts <- P1
   NPorts = 4
   W = 5
-  A = 3
-  M = 7
+  A = 6
+  M = 8
   I = 2
   B = 1
   Deltas <- D3
-  OtherKinds <- SomeOther
+  OtherKinds <- NoOther
   Strict = FALSE
-  ExK = 4
+  ExK = 3
   D = 1
 INIT Init
-NEXT NextR
+NEXT NextL
 VIEW viewMC
 ACTION_CONSTRAINT ExportS
 CHECK_DEADLOCK FALSE
